@@ -55,9 +55,11 @@ var limitChoices = []int{1, 2, 3, 4, 5, 6, 7, 8, 10, 13, 16, 21, 34, 55, 89, 144
 
 func drawWriteCase(t *rapid.T) *writeCase {
 	c := &writeCase{FailCall: -1}
-	if sim.Intn(t, 8, "deep") == 7 {
+	if k := sim.Intn(t, 16, "deep"); k >= 14 {
 		c.Deep = true
 		c.Value = gens.Deep(t, 8+sim.Intn(t, 60, "depth"))
+	} else if k == 13 {
+		c.Value = []any{gens.Wide(t), gens.Tree(t, 2)}
 	} else {
 		c.Value = gens.Tree(t, 4)
 	}
